@@ -43,7 +43,7 @@ GenCons(r, addrs, num, maskp) ==
 \* selections over the static parts of the program's addresses
 StatSeq(p) == SetToSeq({StaticPart(a) : a \in Addrs(p)})
 GenSelAtom(r, p) ==
-  LET ss == StatSeq(p)
+  LET ss == IF Addrs(p) = {} THEN << <<"x">> >> ELSE StatSeq(p)     \* (a zero-length map has no addresses)
       a  == ss[RPick(r, Len(ss)) + 1]
       c  == RPick(RNext(r), 8)
   IN  CASE c = 0 -> ST("all", <<>>, <<>>)
@@ -83,7 +83,7 @@ GenEdit(r, e, opname) ==
         [] OTHER -> Rq(opname, 0, "honest", <<>>, NoSel, 0, "")
 
 OpAllowed(p, opname) ==
-  CASE opname \in {"indexupdate", "indexregen"} -> p.k \in {"vmap", "scan"}
+  CASE opname \in {"indexupdate", "indexregen"} -> p.k \in {"vmap", "scan"} /\ p.n > 0
     [] opname = "staticreq" -> p.k = "static"
     [] opname = "subtrace" -> LET L == IF p.k = "static" THEN p ELSE (IF p.subs = <<>> THEN p ELSE p.subs[1]) IN
                               /\ L.k = "static" /\ p.k \in {"static", "vmap", "repeat", "scan", "mask", "dimap"}
